@@ -11,7 +11,7 @@ SPEC = dict(
     modes=["exh", "sample", ""],
     # --n is the number of cases of the 'sample' and random modes; 'exh' enumerates its whole space
     # (quick: 5542 graphs, thorough (n >= 20000): 88413 graphs)
-    n=dict(quick=4000, thorough=120000),
+    n=dict(quick=2500, thorough=120000),
     rtol=0.0, atol=0.0,
     rule="mode exh: EVERY graph with <= 2 input bodies (+Ground) and <= 2 joints (quick: (<=2 bodies, <=1 joint) or (1 body, <=2 joints)) "
          "over mass in {0,1} x mustBeBase x 4 behaviourally distinct joint types (weld, pin, ball, fixed-without-loop-weld) x mustBeLoop "
